@@ -10,6 +10,7 @@ from fontTools import ttLib
 from fontTools.ttLib.tables import otBase
 from fontTools.ttLib.tables import otTables as ot
 from abc import ABC, abstractmethod
+from copy import copy
 from dataclasses import dataclass
 from collections import deque
 from typing import (
@@ -299,6 +300,17 @@ def reorderGlyphs(font: ttLib.TTFont, new_glyph_order: List[str]):
             cff_table = font[tag]
             charstrings = cff_charstrings[tag]
             cff_table.cff.topDictIndex[0].charset = new_glyph_order
+            # FDSelect is indexed by glyph id.  The top dict gets a reordered copy
+            # (that is what gets compiled); charstrings that are still indexed
+            # keep looking up the original one with their original index.
+            fdSelect = getattr(cff_table.cff.topDictIndex[0], "FDSelect", None)
+            if fdSelect is not None and len(fdSelect) == len(new_glyph_order):
+                old_gids = {name: gid for gid, name in enumerate(old_glyph_order)}
+                newFDSelect = copy(fdSelect)
+                newFDSelect.gidArray = [
+                    fdSelect[old_gids[name]] for name in new_glyph_order
+                ]
+                cff_table.cff.topDictIndex[0].FDSelect = newFDSelect
             cff_table.cff.topDictIndex[0].CharStrings.charStrings = {
                 k: charstrings.get(k) for k in new_glyph_order
             }
